@@ -365,6 +365,8 @@ def ret_expr(h, hid):
         return "hash64(&%s) %% 2 == 0" % key
     if h.ret == "Vec<u32>":
         return "vec![(hash64(&%s) %% 1000) as u32, %d]" % (key, len(h.args))
+    if h.ret == "Option<u32>":
+        return "if hash64(&%s) %% 2 == 0 { None } else { Some((hash64(&%s) %% 1000) as u32) }" % (key, key)
     if h.ret == "Binary":
         return "Binary::from(%s.into_bytes())" % key
     if h.ret == "Unenc":
@@ -374,17 +376,26 @@ def ret_expr(h, hid):
     raise Exception("ret type " + h.ret)
 
 
+BRANCH = [True]  # cleared while a contract with the deprecated context types is printed
+
+
 def body_mut(h, glue, hid, with_info):
     info = "Some(&ctx.info)" if with_info else "None"
     script = "&script" if any(a.name == "script" for a in h.args) else "&Script::default()"
+    # every other handler re-borrows its context first (a handler may; the context it goes on
+    # with is still the one it was given)
+    ctx_ty = h.ctx or CTX[h.kind]
+    branch = ""
+    if BRANCH[0] and ctx_ty in ("ExecCtx", "InstantiateCtx", "SudoCtx") and sum(map(ord, h.fn)) % 2 == 0:
+        branch = "let mut ctx = ctx;\n        { let __b = ctx.branch(); let _ = &__b.env; }\n        "
     return """{
-        let __c = ctx_echo(ctx.deps.as_ref(), &ctx.env, %s);
+        %slet __c = ctx_echo(ctx.deps.as_ref(), &ctx.env, %s);
         bb::enter(<%s as Glue>::CID, "%s", %s, __c);
         bb::touch(ctx.deps.storage);
         let __r = script::run::<%s>(ctx.deps, &ctx.env, %s);
         bb::exit(<%s as Glue>::CID, "%s", script::exit_value(&__r, <%s as Glue>::describe));
         __r
-    }""" % (info, glue, hid, json_args(h.args), glue, script, glue, hid, glue)
+    }""" % (branch, info, glue, hid, json_args(h.args), glue, script, glue, hid, glue)
 
 
 def body_query(h, glue, hid):
@@ -657,10 +668,12 @@ def reply_table(c):
 
 def emit_contract(c, iface_path):
     STATEFUL[0] = c.stateful
+    BRANCH[0] = not c.legacy_ctx
     try:
         return emit_contract_inner(c, iface_path)
     finally:
         STATEFUL[0] = False
+        BRANCH[0] = True
 
 
 def emit_contract_inner(c, iface_path):
@@ -1174,8 +1187,9 @@ def emit_entry_glue(c, iface_path):
         use sv::%sInstantiateBuilder as _;
         let v = parse_args(args)?;
         let mut b = sylvia::builder::instantiate::InstantiateBuilder::%s%s(code_id%s)?;
-        if let Some(l) = label { b = b.with_label(l); }
-        if let Some(a) = admin { b = b.with_admin(a.to_string()); }
+        // (labels / admins of even length are set over an earlier value: the last one counts)
+        if let Some(l) = label { if l.len() %% 2 == 0 { b = b.with_label("first label"); } b = b.with_label(l); }
+        if let Some(a) = admin { if a.len() %% 2 == 0 { b = b.with_admin("first-admin".to_string()); } b = b.with_admin(a.to_string()); }
         if let Some(f) = funds { b = b.with_funds(f); }
         Ok(match salt { Some(s) => b.build2(s), None => b.build() })
     }
@@ -1298,6 +1312,8 @@ REMOTE_GLUE = """    pub fn peer_admin(addr: &Addr, admin: Option<&str>) -> Wasm
     pub fn peer_resave_remote(storage: &mut dyn Storage, slot: &str, to: &str) -> StdResult<Addr> {
         let raw = storage.get(slot.as_bytes()).ok_or_else(|| StdError::generic_err("harness: empty remote slot"))?;
         let r: Remote<'static, %s> = sylvia::cw_std::from_json(&raw)?;
+        // (the handle is used in between: using it does not change what it is)
+        { let _b = r.executor(); }
         storage.set(to.as_bytes(), &sylvia::cw_std::to_json_vec(&r)?);
         Ok(r.as_ref().clone())
     }
@@ -1569,6 +1585,20 @@ def family_f3(rng):
             ],
         )
     )
+    # a shared error method declared first, then methods named after the ids it serves; a payload
+    # value without members
+    cs.append(
+        mk(
+            "named_z",
+            [
+                Handler("reply", "on_failure", reply=Reply(["transfer", "swap"], "error", **PAY_ONE)),
+                Handler("reply", "transfer", reply=Reply([], "success", **PAY_ONE)),
+                Handler("reply", "swap", reply=Reply([], "success", **PAY_ONE)),
+                Handler("reply", "zst", reply=Reply([], "always", payload=[Arg("nil", "Nil")])),
+            ],
+            err="std",
+        )
+    )
     # one name, two methods with a lone Binary payload, the raw marker on the second only
     mixed_err = Reply(["mix"], "error", payload=[Arg("blob", "Binary")])
     mixed_err.decoy_raw = True
@@ -1820,7 +1850,9 @@ def family_f1(rng):
         Contract(
             "pq",
             "f1",
-            std_handlers(rng, extra=[Handler("exec", "op%s" % "abcdefghijklmnopqrst"[k], [Arg("n", "u32")]) for k in range(20)] + [Handler("query", "q%s" % "abcdefghij"[k], [Arg("s", "String")], ret="String") for k in range(10)]),
+            std_handlers(rng, extra=[Handler("exec", "op%s" % "abcdefghijklmnopqrst"[k], [Arg("n", "u32")]) for k in range(20)] + [Handler("query", "q%s" % "abcdefghij"[k], [Arg("s", "String")], ret="String") for k in range(10)]
+            # names whose order as method names differs from their order as wire names
+            + [Handler("exec", "phase_1", [Arg("n", "u32")]), Handler("exec", "phase2", [Arg("n", "u32")]), Handler("exec", "phase_10", [Arg("n", "u32")]), Handler("sudo", "tick_2"), Handler("sudo", "tick10")]),
             uses=[Use(lib["alpha"]), Use(lib["beta"]), Use(lib["delta"]), Use(lib["eps"]), Use(lib["zeta"]), Use(lib["wide"])],
             err="own",
             tags=T + ("regular",),
@@ -1891,6 +1923,7 @@ def family_f1(rng):
                 Handler("query", "tuned", [Arg("level", "Option<u32>", default=D7)], ret="String"),
                 Handler("query", "no_args", ret="u64"),
                 Handler("query", "only_opt", [Arg("memo", "Option<String>")], ret="String"),
+                Handler("query", "maybe", [Arg("x", "u32")], ret="Option<u32>"),
                 Handler("sudo", "nudge", [Arg("n", "u64")]),
                 Handler("sudo", "retune", [Arg("level", "Option<u32>", default=D7), Arg("n", "u32")]),
             ],
@@ -2025,6 +2058,23 @@ def family_f1(rng):
             tags=("dispatch", "regular", "bridged_empty"),
         )
     )
+    # struct messages without any member
+    cs.append(
+        Contract(
+            "pnf",
+            "f1",
+            [
+                Handler("instantiate", "instantiate", script=False),
+                Handler("migrate", "migrate", script=False),
+                Handler("exec", "go"),
+                Handler("query", "probe", [Arg("x", "u32")], ret="u64", failarg=True),
+                Handler("sudo", "nudge", [Arg("n", "u64")]),
+            ],
+            uses=[Use(lib["delta"])],
+            err="own",
+            tags=T + ("regular",),
+        )
+    )
     # a contract value with in-memory state: the deployment that is handed a value must run
     # the handlers on it, the entry points on what `new()` builds
     cs.append(
@@ -2143,6 +2193,15 @@ def family_f2(rng):
         if n % 2 == 0:
             hs.append(Handler("reply", "on_done", reply=Reply([], "always", payload_raw=True, payload=[Arg("payload", "Binary")])))
         cs.append(Contract("zg" + "abcd"[n], "f2", hs, uses=[Use(side)], generic=["Pt", "Kd", "String", "u64"][n], err=["own", "std"][n % 2], overrides=sub, replies=(n % 2 == 0), tags=("override", "regular")))
+    # the replies feature switched on, no reply handler declared: no `reply` entry point
+    hs = [
+        Handler("instantiate", "instantiate", [Arg("a", "u32")]),
+        Handler("exec", "go"),
+        Handler("query", "probe", [Arg("x", "u32")], ret="u64", failarg=True),
+        Handler("sudo", "nudge", [Arg("n", "u32")]),
+        Handler("migrate", "migrate"),
+    ]
+    cs.append(Contract("znr", "f2", hs, uses=[Use(side)], err="own", overrides=[], replies=True, tags=("override", "regular")))
     # generic programs with a reply handler of the old style (no `replies` feature)
     for n, sub in enumerate([[], ["sudo"]]):
         hs = [
